@@ -175,10 +175,20 @@ class time_limit:  # pylint: disable=invalid-name
         # repeating timer: fire again until we are out, should the first one be swallowed
         signal.setitimer(signal.ITIMER_REAL, self.seconds, 0.2)
 
-    def __exit__(self, *exc):
+    def __exit__(self, exc_type, *rest):
         import signal
-        signal.setitimer(signal.ITIMER_REAL, 0, 0)
-        signal.signal(signal.SIGALRM, self.old)
+        fired = False
+        for _ in range(5):
+            # the repeating timer may fire once more while the block is being left: disarm and restore the old
+            # handler whatever happens, and turn a late alarm into an ordinary timeout of THIS block
+            try:
+                signal.setitimer(signal.ITIMER_REAL, 0, 0)
+                signal.signal(signal.SIGALRM, self.old)
+                break
+            except HardTimeout:
+                fired = True
+        if fired and exc_type is None:
+            raise HardTimeout()
         return False
 
 
@@ -196,7 +206,20 @@ def make_pool(workers: int = 16):
 
 def _apply_chunk(args):
     fn, chunk = args
-    return [fn(c) for c in chunk]
+    out = []
+    for c in chunk:
+        for attempt in range(3):
+            try:
+                out.append(fn(c))
+                break
+            except HardTimeout:
+                # a stray alarm of a time limit that had already been left (an alarm can fire in the few
+                # instructions before time_limit.__exit__ disarms the repeating timer): disarm and redo the case
+                import signal
+                signal.setitimer(signal.ITIMER_REAL, 0, 0)
+                if attempt == 2:
+                    raise
+    return out
 
 
 def pmap(pool, fn, cases, chunk: int = 200):
